@@ -27,6 +27,9 @@ type Conn struct {
 	in    []byte
 	inEnd error // once in is drained: return this (io.EOF or an error); nil = more may come
 	Block bool  // block (instead of ErrStall) when empty and not ended
+	// DataWithEnd: the Read that delivers the last buffered bytes of an ended stream returns them TOGETHER with the end error
+	// (n > 0, err != nil), as io.Reader allows and some transports do
+	DataWithEnd bool
 
 	// ReadHook decides how many bytes (1..avail) a Read returns; nil = min(avail, len(p)).
 	ReadHook func(avail, want int) int
@@ -127,6 +130,9 @@ func (c *Conn) Read(p []byte) (int, error) {
 	}
 	copy(p, c.in[:n])
 	c.in = c.in[n:]
+	if c.DataWithEnd && len(c.in) == 0 && c.inEnd != nil {
+		return n, c.inEnd
+	}
 	return n, nil
 }
 
